@@ -89,8 +89,9 @@ class Function:
         self.kind = kind          # 'fn' | 'const' | 'static' | 'promoted'
         self.params = []          # [(local, type)]
         self.ret = None
-        self.locals = {}          # local -> type
-        self.blocks = {}          # 'bb0' -> Block
+        self._locals = {}         # local -> type (header part; body `let`s are added lazily)
+        self._blocks = {}         # 'bb0' -> Block
+        self._body = None         # unparsed body lines (parsed on first access: the dumps are 10-50 MB)
         self.const_value = None   # for `const X: T = const V;`
         self.line = 0
         self.src_file = None
@@ -100,6 +101,21 @@ class Function:
     @property
     def last_segment(self):
         return last_segment(self.name)
+
+    def _force(self):
+        if self._body is not None:
+            body, self._body = self._body, None
+            _parse_body(self, body)
+
+    @property
+    def locals(self):
+        self._force()
+        return self._locals
+
+    @property
+    def blocks(self):
+        self._force()
+        return self._blocks
 
     def __repr__(self):
         return "<MIR %s %s>" % (self.kind, self.name)
@@ -192,7 +208,7 @@ def parse_mir(text):
             while i < n and lines[i] != "}":
                 body.append(lines[i])
                 i += 1
-            _parse_body(f, body)
+            f._body = body
             funcs.append(f)
         i += 1
     return funcs
